@@ -105,6 +105,28 @@ Theorem C15_cargo_env_respects_inherited : forall inh vars l k,
 Proof. exact cargo_layer_keeps_inherited. Qed.
 Print Assumptions C15_cargo_env_respects_inherited.
 
+(* Known finding F15a.  The statement "CARGO_PKG_RUST_VERSION is the package's rust-version as
+   written in its manifest (what Cargo sets)" is false for the code as it is: a two-component
+   rust-version is padded to three components on its way through cargo_metadata and guppy. *)
+Theorem C15_rust_version_refuted :
+  exists p, env_get K.CARGO_PKG_RUST_VERSION (package_layer p)
+            <> Some (unwrap_or_default (p_rust_version p)).
+Proof.
+  exists {| p_version := []; p_major := []; p_minor := []; p_patch := []; p_pre := [];
+            p_authors := []; p_name := []; p_description := None; p_homepage := None;
+            p_license := None; p_license_file := None; p_repository := None;
+            p_rust_version := Some [49; 46; 55; 48] (* 1.70 *) |}.
+  vm_compute. discriminate.
+Qed.
+Print Assumptions C15_rust_version_refuted.
+
+(* Outside that class the value is the manifest's. *)
+Theorem C15_rust_version_outside_known : forall p,
+  rust_version_two_components p = false ->
+  env_get K.CARGO_PKG_RUST_VERSION (package_layer p) = Some (unwrap_or_default (p_rust_version p)).
+Proof. exact rust_version_outside_known. Qed.
+Print Assumptions C15_rust_version_outside_known.
+
 (* ---- Non-vacuity and regression witnesses (closed computations) *)
 
 (* the literals are what they should be *)
